@@ -153,7 +153,7 @@ class C15Driver:
     prop = "C15"
 
     def budget(self, tier):
-        return 260 if tier == "quick" else 4000
+        return 600 if tier == "quick" else 10000
 
     def extra(self, tier, seed):
         return None
